@@ -207,3 +207,24 @@ Proof.
   intros E. destruct (linear_sel_facts fl pts t a b E) as [_ [_ [L _]]].
   unfold lin1. field. lra.
 Qed.
+
+(* with fill_value="extrapolate" the interpolator is defined everywhere on the model's domain *)
+Lemma seg_some {V} (l : list (Q * V)) t : (2 <= length l)%nat -> exists s, seg l t = Some s.
+Proof.
+  induction l as [|a r IH]; intros H; [simpl in H; lia|].
+  destruct r as [|b r']; [simpl in H; lia|]. cbn [seg].
+  destruct (Qle_bool t (fst b)); [eexists; reflexivity|].
+  destruct r' as [|c r'']; [eexists; reflexivity|]. apply IH. simpl. lia.
+Qed.
+
+Lemma linear_extrapolate_defined_l pts t :
+  (2 <= length pts)%nat -> strictly_increasing (map fst (sort_pts pts)) = true ->
+  exists v, linear1 FExtrapolate pts t = LVal v.
+Proof.
+  intros Hlen Hs. unfold linear1, linear_sel. cbv zeta. rewrite Hs. cbn [negb].
+  assert (E : (length (map fst (sort_pts pts)) <? 2)%nat = false).
+  { apply Nat.ltb_ge. rewrite map_length, (Permutation_length (sort_perm pts)). exact Hlen. }
+  rewrite E. cbn [orb].
+  destruct (seg_some (sort_pts pts) t) as [s Hs']; [rewrite (Permutation_length (sort_perm pts)); exact Hlen|].
+  destruct (Qlt_b t (hd 0 (map fst (sort_pts pts))) || Qlt_b (last (map fst (sort_pts pts)) 0) t); rewrite Hs'; eexists; reflexivity.
+Qed.
